@@ -72,7 +72,7 @@ def erase_interval(O, ents, m, M, a, b, mode, shrink):
     exactly b-a, the span's end decreases by b-a, and an interval that straddled the region comes out as one
     interval shortened by b-a; without shrinking the span is unchanged."""
     if O.ge(a, b):
-        O.raise_("ArgumentError")
+        O.raise_("ANY")  # 'a region with a >= b is rejected': the error class is not named
     hit = [x for x in ents if O.lt(x[0], b) and O.lt(a, x[1])]
     if hit and mode == "error":
         O.raise_("CollisionError")
@@ -110,7 +110,7 @@ def erase_interval(O, ents, m, M, a, b, mode, shrink):
 def erase_point(O, ents, m, M, a, b, shrink):
     """C07: 'points with a <= t <= b are removed'; with shrinking later points move earlier by b-a."""
     if O.ge(a, b):
-        O.raise_("ArgumentError")
+        O.raise_("ANY")
     out = [(t, l) for t, l in ents if not (O.le(a, t) and O.le(t, b))]
     if not shrink:
         return {"class": "PointTier", "entries": out, "min": m, "max": M}
@@ -140,7 +140,7 @@ def insert_space_interval(O, ents, m, M, p, d, mode):
         elif mode == "no_change":
             out.append((s, e, l))
         else:
-            O.raise_("ArgumentError")
+            O.raise_("ANY")  # 'or rejected with an error'
     return {"class": "IntervalTier", "entries": out, "min": m, "max": M + d}
 
 
@@ -169,7 +169,7 @@ def edit_timestamps(O, kind, ents, m, M, off, reporting):
         if O.lt(ns, m) or O.gt(ne, M):
             left_span = True
             if reporting == "error":
-                O.raise_("OutOfBounds")
+                O.raise_("ANY")  # 'reported as the reportingMode says (nothing, a message, or an exception)' 
         if kind == "interval":
             if O.le(ne, ZERO):
                 continue
@@ -196,7 +196,7 @@ def insert_entry_interval(O, ents, m, M, new, mode, reporting):
     ns, ne, nl = new
     if O.ge(ns, ne):
         # C05: an operation that cannot produce a well-formed tier raises a praatio error
-        O.raise_("ArgumentError")
+        O.raise_("ANY")
     hit = [x for x in ents if O.lt(x[0], ne) and O.lt(ns, x[1])]
     rest = [x for x in ents if x not in hit]
     if hit and mode == "error":
@@ -352,7 +352,7 @@ def _snap(O, t, refs, D):
 
 def dejitter(O, kind, ents, m, M, refs, D):
     if not refs:
-        O.raise_("ValueError")
+        O.raise_("ANY-EXC")  # 'empty references as error cases'"
     out = []
     for x in ents:
         if kind == "interval":
@@ -363,10 +363,10 @@ def dejitter(O, kind, ents, m, M, refs, D):
         # 'an adjustment that would collapse or cross intervals raises instead of returning an ill-formed tier'
         for s, e, _ in out:
             if O.ge(s, e):
-                O.raise_("TextgridStateError")
+                O.raise_("ANY")
         for x, y in zip(out, out[1:]):
             if O.gt(x[1], y[0]):
-                O.raise_("TextgridStateError")
+                O.raise_("ANY")
     else:
         out = sort_entries(O, out)
     lo, hi = hull(O, m, M, out, kind)
@@ -377,7 +377,7 @@ def morph(O, A, m, M, T, selected):
     """C14: morph gives each selected interval the duration of its counterpart in the target tier while preserving
     labels, the gaps between consecutive intervals, the first start and the trailing gap to the end of the span."""
     if len(A) != len(T):
-        O.raise_("SafeZipException")
+        O.raise_("ANY")  # 'mismatched counts ... as error cases'
     out = []
     prev_old_end = prev_new_end = None
     for (s, e, l), (ts, te, _) in zip(A, T):
